@@ -187,3 +187,13 @@ PROPS["C12"] = {
         {"bin": "c12", "quick": {"cases": 6000, "workers": 16, "budget": 200}, "thorough": {"cases": 40000, "workers": 16, "budget": 1500}},
     ],
 }
+
+PROPS["C16"] = {
+    "level": "exploration",
+    "rule": "rapidcheck-generated cases of two kinds on every catalogue entry: (hist) open in mode {read, write, rdwr} by route {virtual I/O, path, descriptor with close_desc 0/1} + 0..20 calls drawn from every allocating command (strings, bext, cart, cues, instrument, chunks, PEAK on/off, channel map, dither, header-update, scale/clip), typed writes and reads (wrong-mode ones fail), seeks, invalid commands, then close; (malformed) a valid file with metadata, mutated by truncation at any relative offset / short header prefix / byte flips / 0x00-0xFF-ed size fields / header garbage, opened for read by each route and exercised; (opens failing under injected I/O faults are enumerated by C15); "
+            "after every case: LeakSanitizer's recoverable leak check is clean, the set of open descriptors in /proc/self/fd is unchanged, the private TMPDIR is empty, a descriptor given to sf_open_fd is closed iff close_desc, sf_close returned 0 on the non-fault routes; non-trivial = an allocating command was used or an open failed; distinct = hash of the case",
+    "assumptions": BASE_ASSUME + ["LeakSanitizer (in-process recoverable check) is the leak oracle; memory still reachable from library statics would not be reported"],
+    "stages": [
+        {"bin": "c16", "quick": {"cases": 2500, "workers": 16, "budget": 200}, "thorough": {"cases": 20000, "workers": 16, "budget": 1500}},
+    ],
+}
